@@ -109,6 +109,22 @@ TAIL = r'''
 '''
 
 
+def stream_part():
+    """Stream-, terminal-level timestamp clauses: the C02 / C09 harnesses re-instantiated under C03 tags."""
+    import itertools
+    from . import c02, c09
+    pairs = [(k, n) for n in (2, 3) for k in ("sum", "product", "latest")]
+    rust = c02.RUST.replace("@NARY@", "\n".join(c02.nary_fn(n, k) for k, n in pairs))
+    rust = rust.replace("mod c02 {", "mod c03s {").replace("fn c02_", "fn c03s_").replace('"C02.', '"C03.streams.')
+    k = rust.rstrip().rfind("}")
+    rust = rust[:k] + c09.READS.replace("fn c09_pair_reads", "fn c03s_terminal_reads").replace('"C09.pair.', '"C03.terminal.') + "}\n"
+    hs = [Harness("c03s_%s_%d" % (k, n), "e1", unwind=n + 2, timeout=300, clause="%s stream with %d inputs: newest contributing timestamp / newest candidate" % (k, n)) for k, n in pairs]
+    hs += [Harness("c03s_binary", "e1", unwind=4, clause="Sum2/Product2/Difference/Quotient: newest timestamp of the present operands"),
+           Harness("c03s_logic", "e1", clause="And/Or/Not: newest timestamp of the present inputs"),
+           Harness("c03s_terminal_reads", "e2", tolerant=False, skeletons=list(itertools.product([0, 1], repeat=5)), clause="terminal state averaging / command selection timestamps")]
+    return {"variant": "streams", "rust": rust, "harnesses": hs, "stubbing": True}
+
+
 def spec(ctx):
     impls, unknown = parse(core.REPO)
     tr_arms = [arm(im, "Tr") for im in impls if im["lhs"] == "T"]
@@ -120,18 +136,18 @@ def spec(ctx):
                       harness_fn("c03_datum_state_command", sc_arms)]) + TAIL
     hs = [
         Harness("c03_datum_generic", "e1", skeletons=[(i,) for i in range(len(tr_arms))], clause="generic Datum operator impls instantiated with the trace payload (parametric in T)"),
-        Harness("c03_datum_f32", "e2", skeletons=[(i,) for i in range(len(f_arms))], clause="the same impls instantiated with f32"),
-        Harness("c03_datum_state_command", "e2", skeletons=[(i,) for i in range(len(sc_arms))], clause="State / Command x f32 / Datum<f32> special impls"),
+        Harness("c03_datum_f32", "e2", tolerant=False, skeletons=[(i,) for i in range(len(f_arms))], clause="the same impls instantiated with f32"),
+        Harness("c03_datum_state_command", "e2", tolerant=False, skeletons=[(i,) for i in range(len(sc_arms))], clause="State / Command x f32 / Datum<f32> special impls"),
         Harness("c03_latest", "e1", clause="latest()"),
         Harness("c03_replace", "e1", clause="replace_if_older_than, replace_if_none_or_older_than(_option)"),
     ]
     return {
-        "crates": [{"rust": rust, "harnesses": hs}],
+        "crates": [{"rust": rust, "harnesses": hs}, stream_part()],
         "problems": ["unclassified Datum impl: " + u for u in unknown],
         "functions": ["%d operator impls of Datum parsed from datum.rs" % len(impls), "latest", "Datum::replace_if_older_than",
                       "OptionDatumExt::{replace_if_none_or_older_than, replace_if_none_or_older_than_option}"],
         "bounds": {"timestamps": "all i64 pairs", "payload": "trace payload (any T by parametricity) + f32/State/Command all bit patterns"},
         "skeleton_space": {"generic arms": len(tr_arms), "f32 arms": len(f_arms), "State/Command arms": len(sc_arms)},
-        "assumptions": ["stream-, terminal- and device-level timestamp clauses are asserted in the C02, C08, C09, C13 checks"],
+        "assumptions": ["device-update timestamp clauses are asserted in the C08 and C13 checks (same machinery)"],
         "not_decided": [],
     }
